@@ -76,6 +76,12 @@ pub struct Obs {
     pub clock_log: Vec<(usize, i32, u64)>,
     pub trace: Option<Vec<String>>,
     pub extra: Value,
+    /// response files that lost their name between two run() calls (rotated away, deleted): what each held at
+    /// that moment and what it holds when the case ends
+    #[serde(default)]
+    pub rotated: Vec<(Vec<u8>, Vec<u8>)>,
+    #[serde(default)]
+    pub extra_rotation_damage: Option<String>,
 }
 
 pub fn build_app(cfg_json: &Value) -> Result<CompassApp, String> {
@@ -244,11 +250,44 @@ pub fn execute(case: &Case, opts: ExecOpts, mut instr: Box<dyn Instrument>, fata
                         });
                     }
                 }
+                let mut rotated_keys: Vec<(String, Vec<u8>)> = vec![];
+                let mut rewritten_keys: Vec<(String, Vec<u8>)> = vec![];
                 for (bi, b) in case.batches.iter().enumerate() {
                     if two_callers {
                         break;
                     }
                     let run_cfg = case.world.run_config(case.run_parallelism, bi);
+                    // the response file is rotated away, rewritten in place (same content, another file) or deleted
+                    // between two run() calls: the next call names it again and must end up in the file of that name
+                    if let (true, Some(op)) = (bi > 0, case.params.get("rotate").and_then(|r| r.get(bi.saturating_sub(1))).and_then(|x| x.as_u64())) {
+                        let path = case.world.out_path();
+                        sim::with(|s| match op {
+                            1 => {
+                                let to = format!("{}.{}", path, bi);
+                                if let Some(d) = s.get_file(&path).map(|d| d.to_vec()) {
+                                    s.rename_file(&path, &to);
+                                    rotated_keys.push((to, d));
+                                }
+                            }
+                            2 => {
+                                if let Some(d) = s.get_file(&path).map(|d| d.to_vec()) {
+                                    if let Some(k) = s.unlink_file(&path) {
+                                        s.put_file(&path, d.clone());
+                                        // (the old file must not grow any more; the new one carries its content on)
+                                        rewritten_keys.push((k, d));
+                                    }
+                                }
+                            }
+                            3 => {
+                                if let Some(d) = s.get_file(&path).map(|d| d.to_vec()) {
+                                    if let Some(k) = s.unlink_file(&path) {
+                                        rotated_keys.push((k, d));
+                                    }
+                                }
+                            }
+                            _ => {}
+                        });
+                    }
                     if bi > 0 && case.simcfg.idle_between_runs_ns > 0 {
                         // the application sits idle between two batches (an hour, a day)
                         sim::advance_clock(case.simcfg.idle_between_runs_ns);
@@ -265,6 +304,20 @@ pub fn execute(case: &Case, opts: ExecOpts, mut instr: Box<dyn Instrument>, fata
                 }
                 drop(pool);
                 drop(app);
+                sim::with(|s| {
+                    for (k, d) in rotated_keys.iter() {
+                        obs.rotated.push((d.clone(), s.get_file(k).map(|x| x.to_vec()).unwrap_or_default()));
+                    }
+                    for (k, d) in rewritten_keys.iter() {
+                        // (kept apart: a rewritten file's content lives on under the name, so it is not a part of
+                        // the whole; only "nothing was written to the old file" is checked - marked by an empty
+                        // snapshot pair convention: (content then, content now) with a leading marker byte)
+                        let now = s.get_file(k).map(|x| x.to_vec()).unwrap_or_default();
+                        if now != *d {
+                            obs.extra_rotation_damage = Some(format!("{} bytes were written to the file that used to carry the name before it was rewritten in place", now.len().saturating_sub(d.len())));
+                        }
+                    }
+                });
             }
             Ok(Err(e)) => obs.build_error = Some(e),
             Err(_) => obs.build_error = Some("PANIC".into()),
